@@ -154,9 +154,28 @@ theorem var_one_pass_eq_population_var (th : Option ℚ) (l : List ℚ) (hne : l
     induction m with
     | nil => simp
     | cons y ys ih => simp only [List.map_cons, List.sum_cons, List.length_cons, ih]; push_cast; ring
-  rw [key]
-  field_simp
-  ring
+  -- the clamp at 0 never bites in exact arithmetic: the one-pass expression is the (non-negative) population variance
+  have hpos : 0 ≤ (l.map fun x => (x - l.sum / (l.length : ℚ)) ^ 2).sum / (l.length : ℚ) := by
+    apply div_nonneg
+    · have nn : ∀ m : List ℚ, (∀ y ∈ m, 0 ≤ y) → 0 ≤ m.sum := by
+        intro m
+        induction m with
+        | nil => intro _; simp
+        | cons y ys ih =>
+          intro h
+          rw [List.sum_cons]
+          exact add_nonneg (h y List.mem_cons_self) (ih fun z hz => h z (List.mem_cons_of_mem _ hz))
+      apply nn
+      intro y hy
+      obtain ⟨x, _, rfl⟩ := List.mem_map.mp hy
+      positivity
+    · positivity
+  have heq : (l.map fun v => v * v).sum / (l.length : ℚ) - l.sum * l.sum / ((l.length : ℚ) * (l.length : ℚ)) =
+      (l.map fun x => (x - l.sum / (l.length : ℚ)) ^ 2).sum / (l.length : ℚ) := by
+    rw [key]
+    field_simp
+    ring
+  rw [heq, max_eq_left hpos]
 
 /-- **In-paint percentage** = 100 · #{valid R² < threshold} / n -/
 theorem inpaint_pct_def (t : ℚ) (l : List ℚ) (hne : l ≠ []) :
